@@ -1387,6 +1387,10 @@ VResult o_old_impl(const VCase &c) {
   if (!err.empty()) {
     r.fail(fmt("OldVoronoiGrid: construction failed on a valid input: %s",
                err.c_str()));
+    // the inconsistent on-plane decisions of the open finding K4 can also
+    // corrupt the cell topology (crash / endless loop) - same input class
+    if (old_tolerance_prone(P))
+      r.known = "oldvoronoi_tolerance_near_degenerate";
     return r;
   }
   check_grid("OldVoronoiGrid", P, O, r, st);
